@@ -808,7 +808,7 @@ def d1_prepare(ctx, tier, rng):
     from onnx import defs
     items = []     # (label, dtype, coq function text, arg columns, ort rows, result kind)
     skipped_no_kernel, skipped_schema = [], []
-    cap = 80 if tier == "quick" else 400
+    cap = 40 if tier == "quick" else 300
 
     def add(label, op, attrs, dts_in, cols, coqf, kind, consts=None, post=None):
         model = _one_op_model(op, dts_in, [c.shape for c in cols], attrs, consts)
@@ -831,7 +831,9 @@ def d1_prepare(ctx, tier, rng):
         for dt in dts:
             kk = K("d1", [dt], None, kind_args)
             cols = kernel_inputs(kk, dt, "quick", rng)
-            sel = _cap(len(cols[0]), cap, rng)
+            # operators with a recorded onnxruntime deviation are measured on the FULL grid (the decision to skip the
+            # search of a variant must not depend on sampling)
+            sel = list(range(len(cols[0]))) if (op, dt) in ORT_KNOWN_DEVIATIONS else _cap(len(cols[0]), cap, rng)
             cols = tuple(c[sel] for c in cols)
             in_types = [str(c.dtype) for c in cols]
             add(label, op, attrs, in_types, cols, coq.replace("{SB}", sb_lit(dt) if dt in INT_DTYPES else ""), rkind)
@@ -1163,7 +1165,7 @@ def run(ctx):
     t_ = _time.time()
 
     # ---- ties D2 (jax_k == eager JAX) and D3 (lowered_k == onnxruntime(export)) (prepare): same grid, inside Coq
-    cap = 60 if tier == "quick" else 400
+    cap = 40 if tier == "quick" else 300
     for v in live:
         v.d2_job = v.d3_job = None
         try:
@@ -1225,9 +1227,11 @@ def run(ctx):
                         {"kind": "onnx-type-invalid", "kernel": v.k.name, "dtype": v.dt, "input": point(v, 0), "nodes": structure(v.model)})
             continue
         dev = sorted(node_op_dtypes(v.model) & deviations)
-        if dev:
+        if dev and (v.status != "ran" or v.bad or v.dtype_bad):
+            # a difference on a graph that contains an operator onnxruntime itself gets wrong (tie D1, this run) cannot be
+            # attributed to the exporter: not searched (the theorem and tie S still cover the variant)
             v.status = "ort-deviant"
-            deviant.append(f"{v.id} ({', '.join(f'{o}:{d}' for o, d in dev)})")
+            deviant.append(f"{v.id} ({', '.join(f'{o}:{d}' for o, d in dev)}; {len(v.bad)} grid points differ)")
             continue
         if v.status == "ort-no-kernel":
             no_kernel.append(v.id)
